@@ -28,7 +28,7 @@ def pool():
         datetime.datetime(2020, 6, 1, 12, tzinfo=TZ.utc), datetime.datetime(2020, 6, 1, 12), datetime.date(2020, 6, 1), datetime.date(1970, 1, 1),
         datetime.datetime(1999, 12, 31, 23, 59, 59, 999000), datetime.date(2000, 1, 1),
         [], [None], [0], [1], [1.0], [1, 2], [1, 2.0], [2], [1, [2]], [1, [2, 3]], [[1]], [[]], ['a'], ['a', 1], [True], [None, None], [[1, 2], 3],
-        {}, {'a': 1}, {'a': 1.0}, {'a': 2}, {'b': 1}, {'a': 1, 'b': 2}, {'b': 2, 'a': 1}, {'a': None}, {'a': [1]}, {'a': {'b': 1}}, {'a': {'b': 1.0}}, {'': 0}, {'a': True}, {'a': False}, {'a': 0}, {'a': [True]}, {'a': {'b': True}}, {'a': {'b': 0}}, {'a': 1, 'b': True}, {'a': '1'},
+        {}, {'a': 1}, {'a': 1.0}, {'a': 2}, {'b': 1}, {'a': 1, 'b': 2}, {'b': 2, 'a': 1}, {'a': None}, {'a': [1]}, {'a': {'b': 1}}, {'a': {'b': 1.0}}, {'': 0}, {'a': True}, {'a': False}, {'a': 0}, {'a': [True]}, {'a': {'b': True}}, {'a': {'b': 0}}, {'a': 1, 'b': True}, {'a': '1'}, {'b': 1, 'a': 2}, {'b': 2, 'a': 1}, {'b': 0, 'a': 3}, {'c': 1, 'b': 5, 'a': 0}, {'c': 2, 'b': 0, 'a': 0}, {'z': [1], 'y': [2]}, {'z': [2], 'y': [1]},
         [1, 3], [1, 2, 3], [3], [2, 1], [[2]], [[1, 3]], [0, 5], [False], [0], [[True]], [[1]],
         f1, f2, re.compile('a'), re.compile('b'),
     ]
@@ -113,7 +113,11 @@ def run_pairs(acc, api):
                 continue
             if i == j and c != 0:
                 acc.violation('reflexivity', f'cmp(x,x)={c} for {a!r}', case)
-            cf = value_compare(flt(a), b)
+            try:
+                cf = value_compare(flt(a), b)
+            except Exception as exc:  # pylint: disable=broad-except
+                acc.violation('compare-raised', f'{flt(a)!r} vs {b!r}: {type(exc).__name__}: {exc}', case)
+                continue
             if cf != c:
                 acc.violation('int-float-sensitive', f'cmp({a!r},{b!r})={c} but with the float spelling of the left value {cf}', case)
             acc.cover('type_pairs', f'{refval.rtype(a)} {refval.rtype(b)}')
